@@ -93,14 +93,15 @@ Example C19_invite_witnesses_now_hold :
 Proof. exact invite_witnesses_now_hold. Qed.
 Print Assumptions C19_invite_witnesses_now_hold.
 
-(* (3') the table together with its database, across restarts. HOLDS (fixes 2163820, 1e2cdf6, 1c5e321)
-   for every history of creations (with or without a default room, grantable or not), acceptances of
-   invitations received from others, lookups, uses and RESTARTS (PeerManager::new rebuilding the table
-   from the database): an invitation is consumed only while it is pending and a consumption ends it —
-   across restarts too.  Proof: invariant "table = pending set = database rows", re-established by
-   rebuild.  (dops_ok is about the encoding: received invitations carry foreign ids; an instance that
-   accepts its OWN invitation is class 5 below.) *)
-Theorem C19_invdb_holds : forall app me mk ops, dops_ok (n_dcreates ops) ops = true ->
+(* (3') the table together with its database, across restarts. HOLDS at full strength (fixes
+   2163820, 1e2cdf6, 1c5e321, 4354588) for every history of creations (with or without a default
+   room, grantable or not), acceptances (of invitations received from others AND of the instance's own
+   ones), lookups, uses and RESTARTS (PeerManager::new rebuilding the table from the database): an
+   invitation is consumed only while it is pending and a consumption ends it — across restarts too.
+   Proof: invariant "table = pending set = database rows (one row per pending invitation)",
+   re-established by rebuild.  (dops_ok is about the encoding only, as in C19_invite_holds: a received
+   invitation never carries the id of an invitation this instance creates later.) *)
+Theorem C19_invdb_holds : forall app me mk ops, dops_ok 1 (n_dcreates ops) ops = true ->
   spec_dops app [] ops (run_dops mk (init_sys app me mk) ops) = true.
 Proof. exact invdb_holds. Qed.
 Print Assumptions C19_invdb_holds.
@@ -115,19 +116,17 @@ Theorem C19_consumed_invite_not_reloaded : forall mk s t inv p a sg,
 Proof. exact consumed_invite_not_reloaded. Qed.
 Print Assumptions C19_consumed_invite_not_reloaded.
 
-(* the witness of the repaired class 4 (default room that cannot be granted) passes and the oracle
-   still refuses what the unrepaired code answered; class 5 (open), REFUTED: an instance accepts its
-   own invitation (the sys.Invite row is written although the table knows the invitation), restarts,
-   and the invitation is registered twice: used by one peer, it is still answered and used again *)
+(* the witnesses of the repaired classes 4 (default room that cannot be granted) and 5 (own invitation
+   accepted, then a restart) pass, and the oracle still refuses what the unrepaired code answered *)
 Example C19_invdb_witnesses :
   run_C19 (CInvDb 1 me0 1 ungrantable) = [1; 1; 2; 1; 0; 0; 1; 0; 0; 0]%Z /\
   spec_C19 (CInvDb 1 me0 1 ungrantable) (run_C19 (CInvDb 1 me0 1 ungrantable)) = true /\
   spec_C19 (CInvDb 1 me0 1 ungrantable) [1; 1; 2; 1; 2; 1; 1; 0; 0; 0]%Z = false /\
   run_C19 (CInvDb 1 me0 1 grantable) = [1; 1; 1; 2; 2; 1; 1; 0; 0; 0; 2; 1; 1; 0; 0; 0]%Z /\
   spec_C19 (CInvDb 1 me0 1 grantable) (run_C19 (CInvDb 1 me0 1 grantable)) = true /\
-  run_C19 (CInvDb 1 me0 1 own_accepted) = [1; 1; 1; 0; 1; 0; 2; 1; 3; 1; 3; 1]%Z /\
-  spec_C19 (CInvDb 1 me0 1 own_accepted) (run_C19 (CInvDb 1 me0 1 own_accepted)) = false /\
-  known_C19 (CInvDb 1 me0 1 own_accepted) = [5]%Z.
+  run_C19 (CInvDb 1 me0 1 own_accepted) = [1; 1; 1; 0; 1; 0; 2; 1; 0; 0; 0; 0]%Z /\
+  spec_C19 (CInvDb 1 me0 1 own_accepted) (run_C19 (CInvDb 1 me0 1 own_accepted)) = true /\
+  spec_C19 (CInvDb 1 me0 1 own_accepted) [1; 1; 1; 0; 1; 0; 2; 1; 3; 1; 3; 1]%Z = false.
 Proof. exact invdb_witnesses. Qed.
 Print Assumptions C19_invdb_witnesses.
 
@@ -157,7 +156,7 @@ Theorem C19_token_refuted :
 Proof. exact token_sym_refuted. Qed.
 Print Assumptions C19_token_refuted.
 
-(* (5) the same, about the functions the harness evaluates: outside the open classes (2, 5) the
+(* (5) the same, about the functions the harness evaluates: outside the one open class (2) the
    property's oracle holds on everything the model can observe — every remote behaviour, every
    history of table operations, every family of secrets *)
 Theorem C19_outside_known : forall c, case_ok c -> known_C19 c = [] -> spec_C19 c (run_C19 c) = true.
